@@ -237,6 +237,20 @@ func (k *KVStore) PutRaw(hkey uint64, value []byte) error {
 	return nil
 }
 
+// Validate reports whether Put would reject the given entry because of its size: it returns
+// storage.ErrEntryTooLarge or storage.ErrKeyTooLarge. It does not store anything. The encoded
+// form of an entry cannot be validated anymore, its key length is a single byte, so the entry
+// has to be checked before it's encoded and sent to the replicas.
+func (k *KVStore) Validate(value storage.Entry) error {
+	if requiredSizeForAnEntry(value) >= k.tableSize {
+		return storage.ErrEntryTooLarge
+	}
+	if len(value.Key()) >= table.MaxKeyLength {
+		return storage.ErrKeyTooLarge
+	}
+	return nil
+}
+
 // Put sets the value for the given key. It overwrites any previous value for that key
 func (k *KVStore) Put(hkey uint64, value storage.Entry) error {
 	// An entry has to be strictly smaller than the table size, see table.Put.
